@@ -16,13 +16,13 @@ func init() {
 	registerProperty(&PropertyInfo{
 		ID:    "C10",
 		Title: "Numeric encoding preserves order; range decomposition is exact",
-		Rules: []string{"C10.R1", "C10.R2", "C10.R3", "C08.R7"},
+		Rules: []string{"C10.R1", "C10.R2", "C10.R3", "C10.R4", "C08.R7"},
 		Decides: "table agreement between the index-time and the query-time side, and between encoder and decoder (narrow claim): the precision step handed to every range decomposition equals the shift step of the numeric and date-time field analyzers, and every geo searcher is built with the same precision-step variable the geo field uses; Float64ToInt64 and Int64ToFloat64 flip with the same mask under a sign test of the INTEGER bit pattern; the prefix coder and its decoders use the same sign-flip constant, the same 7-bit group (mask and both shifts), the same shift-start byte and the same length formula; the range decomposition guards its bound arithmetic against wrap-around (a comparison of the advanced bound with the bound it came from decides the loop exit). the union of a range's term bitmaps covers all of them (C08.R7).",
 		NotCovered: "that the encoding is an order embedding over all 2^64 values and that the decomposition is exact for every interval (arithmetic, not shape).",
 	})
 	registerRule(&RuleInfo{ID: "C10.R1", Title: "index-time and query-time precision steps agree", Floor: 3, Run: ruleC10R1,
 		Covers: "constants/variables handed to the field analyzers vs. to splitInt64Range and the geo searchers"})
-	registerRule(&RuleInfo{ID: "C10.R2", Title: "encoder and decoder share their constants", Floor: 6, Run: ruleC10R2,
+	registerRule(&RuleInfo{ID: "C10.R2", Title: "encoder and decoder share their constants", Floor: 4, Run: ruleC10R2,
 		Covers: "masks, shifts and offsets of numeric/float.go and numeric/prefix_coded.go"})
 	registerRule(&RuleInfo{ID: "C10.R3", Title: "range decomposition guards against int64 wrap-around", Floor: 2, Run: ruleC10R3,
 		Covers: "bound arithmetic of the function that splits an int64 interval into prefix ranges"})
